@@ -205,13 +205,28 @@ class Cache(object):
 
     def _dump_flow_and_yield(self, flow):
         # fill cache and yield values
-        with open(self._filename, "wb") as f:
-            dump = lambda val: self._dump(val, f, self.protocol)
-            for val in flow:
-                # if there were an error in a next element,
-                # our value will be saved first (before yielding)
-                dump(val)
-                yield val
+        # The flow is written to a temporary file, which gets
+        # the cache name only after the flow has been exhausted:
+        # an interrupted run (the consumer stopped or an element raised)
+        # must not leave a prefix that looks like the complete flow.
+        filename = self._filename
+        part = filename + ".part"
+        complete = False
+        try:
+            with open(part, "wb") as f:
+                dump = lambda val: self._dump(val, f, self.protocol)
+                for val in flow:
+                    dump(val)
+                    yield val
+            complete = True
+        finally:
+            if complete:
+                getattr(os, "replace", os.rename)(part, filename)
+            else:
+                try:
+                    os.remove(part)
+                except OSError:
+                    pass
 
 
     def _load_flow(self):
